@@ -611,6 +611,14 @@ func renderRootBody(ms *ModSet, b *strings.Builder) {
 		show("x von mitte von (ein Kreis)", v[2])
 		show("das x der Mitte laut b", v[2])
 		show("radius von (ein Kreis)", v[3])
+		// one generic function instantiated with both same-named Kombinationen
+		b.WriteString("Die generische Funktion gib_x mit dem Parameter gp vom Typ T, gibt eine Zahl zurück, macht:\n\tGib x von gp zurück.\nUnd kann so benutzt werden:\n\t\"das x von <gp> allgemein\"\n")
+		if ms.structVariant == 0 {
+			show("das x von (ein a-Punkt) allgemein", v[0])
+		} else {
+			show("das x von (ein eigener Punkt) allgemein", v[4])
+		}
+		show("das x von (mitte von (ein Kreis)) allgemein", v[2])
 	}
 	b.WriteString("hilfs.\n")
 	ms.RootTail = append(ms.RootTail, "call m0:hilfs")
